@@ -477,14 +477,42 @@ def refute(a, b, whole_values=True, trials=60):
         return None
     rnd = random.Random(20260928)
     for _ in range(trials):
-        asg = {}
+        asg, asg_b = {}, {}
         try:
-            x, y = _evaluate(na, asg, rnd), _evaluate(nb, asg, rnd)
+            x = _evaluate(na, asg, rnd)
+            only_a = set(asg)
+            asg_b = dict(asg)
+            y = _evaluate(nb, asg_b, rnd)
         except (_NoValue, ZeroDivisionError, OverflowError, ValueError):
             continue
+        # the two sides must speak about the same things: when each is made of something the other does not mention, what links the two
+        # (a format invariant, a local carried through a loop in another form) is not known and numbers prove nothing
+        vars_b = {k for k in asg_b if k not in only_a} | {k for k in only_a if _mentions_atom(nb, k)}
+        if (set(asg_b) - only_a) and (only_a - {k for k in only_a if _mentions_atom(nb, k)}):
+            return None
         if x != y:
-            return {repr(F.Rat(F.Poly.atom(k)))[:80]: v for k, v in list(asg.items())[:6]}
+            return {repr(F.Rat(F.Poly.atom(k)))[:80]: v for k, v in list(asg_b.items())[:6]}
     return None
+
+
+def _mentions_atom(v, a):
+    seen = set()
+
+    def poly(p_):
+        for m in p_.t:
+            for x, _e in m:
+                if x == a:
+                    return True
+                if x in seen:
+                    continue
+                seen.add(x)
+                d = F.atom_desc(x)
+                if d[0] == "fn":
+                    for k in d[2]:
+                        if not isinstance(k, str) and (poly(F._poly_from_key(k[1])) or poly(F._poly_from_key(k[2]))):
+                            return True
+        return False
+    return poly(v.n) or poly(v.d)
 
 
 def _has_split(v):
@@ -807,6 +835,33 @@ def _canon_carried(lp):
     return map_loop(lp, renamer(mapping)) if mapping else lp
 
 
+def _canon_derived(lp):
+    """a loop-carried local that is, on entry and after every iteration, the same function of another loop-carried local (`n = int(line[16:24])`
+    kept beside `line`) is written as that function of the other's placeholder: carrying the derived value or recomputing it at the top
+    of the loop is the same loop"""
+    carry = [(p, v) for p, v in lp.carry if v is not None and not is_unknown(v) and not isinstance(v, (tuple, DictValue))]
+    mapping = []
+    for px, vx in carry:
+        dx = fn_parts(px)
+        if dx is None or dx[0] != "lv" or len(dx[1]) < 2 or isinstance(dx[1][1], str):
+            continue
+        ex = dx[1][1]
+        for py, vy in carry:
+            dy = fn_parts(py)
+            if py.equals(px) or dy is None or dy[0] != "lv" or len(dy[1]) < 2 or isinstance(dy[1][1], str) or as_atom(vy) is None or as_atom(dy[1][1]) is None:
+                continue
+            ey = dy[1][1]
+            if not _mentions_atom(vx, F._intern(as_atom(vy))) or not _mentions_atom(ex, F._intern(as_atom(ey))):
+                continue
+            G = renamer([(vy, py)])(vx)               # the update of x, written on y as it is at the top of the next iteration
+            if _mentions_atom(G, F._intern(as_atom(vy))):
+                continue
+            if same(renamer([(py, ey)])(G), ex, whole_values=False):
+                mapping.append((px, G))
+                break
+    return map_loop(lp, renamer(mapping)) if mapping else lp
+
+
 def same_loops(l1, l2, whole_values=True, why=None, _depth=0):
     def no(msg):
         if why is not None and not why:
@@ -819,7 +874,7 @@ def same_loops(l1, l2, whole_values=True, why=None, _depth=0):
     if not ((t1 is not None and t1 == t2) or same(e1, e2, whole_values)):
         LAST_DIFFERENCE[:] = [(e1, e2, whole_values)]
         return no(f"loop condition on entry {norm(e1)!r}  vs  {norm(e2)!r}")
-    l1, l2 = _canon_carried(l1), _canon_carried(l2)
+    l1, l2 = _canon_carried(_canon_derived(l1)), _canon_carried(_canon_derived(l2))
     if not same(l1.test, l2.test, whole_values):
         LAST_DIFFERENCE[:] = [(l1.test, l2.test, whole_values)]
         return no(f"loop condition {norm(l1.test)!r}  vs  {norm(l2.test)!r}")
@@ -1466,6 +1521,8 @@ class CEval(AutoEvaluator):
                 return Unknown(f"slice of a literal sequence with bounds that are not known (line {node.lineno})")
             if isinstance(base, DictValue):
                 return Unknown("slice of a table")
+            if sl[0] is None and sl[2] is None:
+                sl[0] = ZERO              # x[:b] is x[0:b]
             ix = make_slice(*sl)
         else:
             k = self._ev(node.slice)
